@@ -3,7 +3,6 @@
 use std::collections::HashMap;
 use std::fmt::Debug;
 use std::ops::{Deref, DerefMut};
-use std::sync::Arc;
 
 #[cfg(feature = "Debug")]
 use crate::common::debug;
@@ -534,21 +533,11 @@ impl Expression for ExpressionOperator {
             "ExpressionOperator::execute: <{:?}={}> {:?} <{:?}={}>",
             self.left, left_result, self.operator, self.right, right_result
         );
-        let result_data = if Arc::ptr_eq(&left_result.arc, &right_result.arc) {
-            // Same object, we have to clone the content at least for one side to avoid deadlock.
-            let left_data = left_result.lock().unwrap().clone();
-            Self::operation(
-                &left_data,
-                &self.operator,
-                right_result.lock().unwrap().deref(),
-            )
-        } else {
-            Self::operation(
-                &left_result.lock().unwrap(),
-                &self.operator,
-                right_result.lock().unwrap().deref(),
-            )
-        };
+        // No lock is held while the operation runs: '==' and Display lock nested values, which
+        // may be the operands themselves (a == [a]).
+        let left_data = left_result.lock().unwrap().clone();
+        let right_data = right_result.lock().unwrap().clone();
+        let result_data = Self::operation(&left_data, &self.operator, &right_data);
         Ok(create_data_arc(result_data))
     }
 
